@@ -1,5 +1,6 @@
 from __future__ import annotations
 
+from pathlib import PurePosixPath
 from typing import TYPE_CHECKING
 
 from poetry.core.masonry.utils.include import Include
@@ -23,6 +24,14 @@ class PackageInclude(Include):
         self._is_module = False
         self._source = source
         self._target = target
+
+        if target is not None and (
+            PurePosixPath(target).is_absolute() or ".." in PurePosixPath(target).parts
+        ):
+            raise ValueError(
+                f"Target '{target}' of package '{include}' must be a relative path"
+                " that stays inside the distribution"
+            )
 
         if source is not None:
             base = base / source
